@@ -3,7 +3,7 @@ C20 — output files (`gen_params`, `gen_coords`, `gen_seq`) and vermouth's `Def
 Core Lean only.
 
 Modelled
-* the filesystem as a finite map path → contents (`FS`, an association list read with `get`);
+* the filesystem as a finite map path → contents (`FS`, an association list read with `look`);
 * paths as a structured type: a plain name in the output directory (`file`), a GROMACS-style backup
   `#name.k#` of that name in the same directory (`backup name k`, `Path.with_name` in
   `DeferredFileWriter._find_free_path`) and a `tempfile.mkstemp` result in the temporary directory
@@ -40,31 +40,31 @@ def Path.user : Path → Bool
 
 abbrev FS := List (Path × String)
 
-def get : FS → Path → Option String
+def look : FS → Path → Option String
   | [], _ => none
-  | (q, c) :: rest, p => if q = p then some c else get rest p
+  | (q, c) :: rest, p => if q = p then some c else look rest p
 
 def erase (fs : FS) (p : Path) : FS := fs.filter (fun e => e.1 ≠ p)
 
-def set (fs : FS) (p : Path) (c : String) : FS := (p, c) :: erase fs p
+def put (fs : FS) (p : Path) (c : String) : FS := (p, c) :: erase fs p
 
 /-- `shutil.move(src, dst)` on the same filesystem: rename, replacing `dst` -/
 def move (fs : FS) (src dst : Path) : FS :=
-  match get fs src with
-  | some c => set (erase fs src) dst c
+  match look fs src with
+  | some c => put (erase fs src) dst c
   | none => fs
 
 /-- `_find_free_path` for an existing destination: try `#name.k#` for k = start, start+1, … .
 `fuel` bounds the search; `findFree` supplies enough (one more than the number of entries). -/
 def findFreeFrom (fs : FS) (name : String) : Nat → Nat → Nat
   | 0, k => k
-  | fuel + 1, k => if (get fs (.backup name k)).isNone then k else findFreeFrom fs name fuel (k + 1)
+  | fuel + 1, k => if (look fs (.backup name k)).isNone then k else findFreeFrom fs name fuel (k + 1)
 
 def findFree (fs : FS) (name : String) : Nat := findFreeFrom fs name fs.length 1
 
 /-- `DeferredFileWriter._write_file(tmp, final)` -/
 def writeFile (fs : FS) (t : Nat) (name : String) : FS :=
-  let fs1 := match get fs (.file name) with
+  let fs1 := match look fs (.file name) with
     | some _ => move fs (.file name) (.backup name (findFree fs name))
     | none => fs
   move fs1 (.tmp t) (.file name)
@@ -123,15 +123,15 @@ def step (st : St) : Stage → St
   | .compute _ => st
   | .openDeferred _ out =>
     match queued st.queue out with
-    | some t => { st with fs := set st.fs (.tmp t) "" }
-    | none => { fs := set st.fs (.tmp st.next) "", queue := st.queue ++ [(st.next, out)], next := st.next + 1 }
+    | some t => { st with fs := put st.fs (.tmp t) "" }
+    | none => { fs := put st.fs (.tmp st.next) "", queue := st.queue ++ [(st.next, out)], next := st.next + 1 }
   | .writeDeferred _ out data =>
     match queued st.queue out with
-    | some t => { st with fs := set st.fs (.tmp t) (((get st.fs (.tmp t)).getD "") ++ data) }
+    | some t => { st with fs := put st.fs (.tmp t) (((look st.fs (.tmp t)).getD "") ++ data) }
     | none => st
   | .flush _ => { st with fs := flushQueue st.fs st.queue, queue := [] }
-  | .openDirect _ out => { st with fs := set st.fs (.file out) "" }
-  | .writeDirect _ out data => { st with fs := set st.fs (.file out) (((get st.fs (.file out)).getD "") ++ data) }
+  | .openDirect _ out => { st with fs := put st.fs (.file out) "" }
+  | .writeDirect _ out data => { st with fs := put st.fs (.file out) (((look st.fs (.file out)).getD "") ++ data) }
 
 def run (stages : List Stage) (st : St) : St := stages.foldl step st
 
@@ -175,7 +175,7 @@ def genCoordsStages (split coord build skipFilter : Bool) (out : String) (chunks
     ++ (if split then ["MetaMolecule.split_residue"] else [])
     ++ (if coord then ["Topology.add_positions_from_file"] else [])
     ++ ["load_build_files"]
-    ++ (if build then ["read_build_file"] else [])
+    ++ (if build then ["BuildDirector.parse"] else [])
     ++ ["find_starting_node_from_spec"]
     ++ (if skipFilter then ["check_residue_equivalence"] else [])
     ++ ["GenerateTemplates.run_system", "AnnotateLigands.run_system", "_initialize_cylces",
@@ -186,46 +186,44 @@ def genCoordsStages (split coord build skipFilter : Bool) (out : String) (chunks
   ++ [.flush "DeferredFileWriter.write"]
 
 /-- `gen_seq.gen_seq(...)`: stages, then builtin `open(outpath,'w')` and `json.dump` -/
-def genSeqStages (fromFile mods tags : Bool) (out : String) (chunks : List String) : List Stage :=
+def genSeqStages (fromFile mods : Bool) (out : String) (chunks : List String) : List Stage :=
   computes ((if fromFile then ["load_ff_library", "MacroFile"] else [])
     ++ ["MacroString", "generate_seq_graph", "_apply_termini_modifications"]
     ++ (if mods then ["_find_terminal_nodes"] else [])
-    ++ ["_tag_nodes"]
-    ++ (if tags then ["_random_replace_nodes_attribute"] else [])
-    ++ ["node_link_data"])
+    ++ ["_tag_nodes", "node_link_data"])
   ++ [.openDirect "open" out, .compute "json.dump"]
   ++ chunks.map (Stage.writeDirect "file_handle.write" out)
 
 /-! ### specification side -/
 
 /-- "no output file is created, truncated or modified" -/
-def SpecUnchanged (fs fs' : FS) : Prop := ∀ p : Path, p.user = true → get fs' p = get fs p
+def SpecUnchanged (fs fs' : FS) : Prop := ∀ p : Path, p.user = true → look fs' p = look fs p
 
 /-- "the complete file is in place and a file previously at that path is kept under a GROMACS-style
 backup name" (the first free `#out.k#`, k ≥ 1); nothing else changed -/
 def SpecSuccess (fs fs' : FS) (out content : String) : Prop :=
-  get fs' (.file out) = some content ∧
-  match get fs (.file out) with
-  | none => ∀ p : Path, p.user = true → p ≠ .file out → get fs' p = get fs p
-  | some old => ∃ k, 1 ≤ k ∧ get fs (.backup out k) = none ∧
-      (∀ j, 1 ≤ j → j < k → get fs (.backup out j) ≠ none) ∧
-      get fs' (.backup out k) = some old ∧
-      ∀ p : Path, p.user = true → p ≠ .file out → p ≠ .backup out k → get fs' p = get fs p
+  look fs' (.file out) = some content ∧
+  match look fs (.file out) with
+  | none => ∀ p : Path, p.user = true → p ≠ .file out → look fs' p = look fs p
+  | some old => ∃ k, 1 ≤ k ∧ look fs (.backup out k) = none ∧
+      (∀ j, 1 ≤ j → j < k → look fs (.backup out j) ≠ none) ∧
+      look fs' (.backup out k) = some old ∧
+      ∀ p : Path, p.user = true → p ≠ .file out → p ≠ .backup out k → look fs' p = look fs p
 
 def keys (fs : FS) : List Path := fs.map (·.1)
 
 /-- executable `SpecUnchanged` (it suffices to look at the paths present on either side) -/
 def specUnchangedB (fs fs' : FS) : Bool :=
-  (keys fs ++ keys fs').all (fun p => !p.user || get fs' p == get fs p)
+  (keys fs ++ keys fs').all (fun p => !p.user || look fs' p == look fs p)
 
 /-- executable `SpecSuccess` -/
 def specSuccessB (fs fs' : FS) (out content : String) : Bool :=
-  get fs' (.file out) == some content &&
-  match get fs (.file out) with
-  | none => (keys fs ++ keys fs').all (fun p => !p.user || p == .file out || get fs' p == get fs p)
+  look fs' (.file out) == some content &&
+  match look fs (.file out) with
+  | none => (keys fs ++ keys fs').all (fun p => !p.user || p == .file out || look fs' p == look fs p)
   | some old =>
     let k := findFree fs out
-    get fs' (.backup out k) == some old &&
-    (keys fs ++ keys fs').all (fun p => !p.user || p == .file out || p == .backup out k || get fs' p == get fs p)
+    look fs' (.backup out k) == some old &&
+    (keys fs ++ keys fs').all (fun p => !p.user || p == .file out || p == .backup out k || look fs' p == look fs p)
 
 end PolyplyVerif.Output
